@@ -610,4 +610,8 @@ class CovarianceCounter:
 
     @property
     def pearson_correlation(self):
-        return self.Ck / math.sqrt(self.MkX * self.MkY)
+        denominator = math.sqrt(self.MkX * self.MkY)
+        if denominator == 0:
+            # no data, a single point or a constant column: 0/0
+            return float("nan")
+        return self.Ck / denominator
